@@ -42,9 +42,9 @@ EvalOK(e) == Len(e) = 1 /\ e[1].t = "num"
 RECURSIVE Rep(_, _)
 Rep(s, n) == IF n <= 0 THEN << >> ELSE s \o Rep(s, n - 1)
 
+\* (block labels are emitted as written since the repair of D24: no private renaming)
 SubstTok(k, q, i) ==
   IF IsText(k) /\ k.t = "lbl" /\ k.v = q.cl THEN T("num", i)
-  ELSE IF k.t = "lbl" /\ (\E j \in 1..Len(q.ll) : q.ll[j] = k.v) THEN T("lbl", "ren")
   ELSE k
 RECURSIVE Body(_, _)
 Body(q, i) == IF i > q.fc THEN << >> ELSE [j \in 1..Len(q.cont) |-> SubstTok(q.cont[j], q, i)] \o Body(q, i + 1)
@@ -82,7 +82,7 @@ Step(q) ==
               R([St(q, "forInnerLine") EXCEPT
                     !.cl = IF n > 0 THEN q.lb[n] ELSE "",
                     !.ll = IF n > 1 THEN SubSeq(q.lb, 1, n - 1) ELSE << >>,
-                    !.tw = IF n > 1 THEN n - 1 ELSE 0,   \* number of renamed labels still to write; -1 = nil
+                    !.tw = IF n > 1 THEN n - 1 ELSE 0,   \* number of block labels still to write; -1 = nil
                     !.fc = q.eb[1].v, !.cont = << >>, !.lb = << >>], << >>)
     [] q.st = "forInnerLine" ->
          IF IsText(k) THEN R([St(q, "forInnerLabels") EXCEPT !.lb = << >>], << >>)
@@ -90,14 +90,18 @@ Step(q) ==
     [] q.st = "forInnerLabels" ->
          IF IsText(k) THEN
             IF IsPseudo(k) THEN
-               IF k.t = "for" THEN R([St(q, "forInnerEmitLabels") EXCEPT !.depth = @ + 1], << >>)
+               IF k.t = "for" THEN
+                    \* the block labels are still pending and will precede this nested block: it gets a counter name of its own
+                    R([St(q, "forInnerEmitLabels") EXCEPT !.depth = @ + 1,
+                          !.lb = IF q.depth = 0 /\ q.tw >= 0 /\ q.lb = << >> /\ q.ll # << >> THEN <<"anon">> ELSE @], << >>)
                ELSE IF k.t = "rof" THEN
                     IF q.depth > 0 THEN R([St(q, "forInnerEmitConsumeLine") EXCEPT !.depth = @ - 1], << >>)
                     ELSE R(St(q, "forRof"), << >>)
                ELSE R(St(q, "forInnerEmitLabels"), << >>)
             ELSE IF IsOp(k) THEN
-               R([St(q, "forInnerEmitLabels") EXCEPT !.tw = -1],
-                 IF q.tw >= 0 THEN [j \in 1..q.tw |-> T("lbl","ren")] ELSE << >>)
+               \* the labels as written, in front of the first instruction line read; a block with count 0 keeps them (forCarry)
+               IF q.tw >= 0 /\ q.fc > 0 THEN R([St(q, "forInnerEmitLabels") EXCEPT !.tw = -1], [j \in 1..q.tw |-> T("lbl", q.ll[j])])
+               ELSE R(St(q, "forInnerEmitLabels"), << >>)
             ELSE R(St(Nx([q EXCEPT !.lb = Append(@, k.v)]), "forInnerLabels"), << >>)
          ELSE R(St(q, "forInnerEmitLabels"), << >>)
     [] q.st = "forInnerEmitLabels" ->
@@ -108,10 +112,22 @@ Step(q) ==
          ELSE IF k.t = "nl" THEN R(St(Nx([q EXCEPT !.cont = Append(@, k)]), "forInnerLine"), << >>)
          ELSE R(St(Nx([q EXCEPT !.cont = Append(@, k)]), "forInnerEmitConsumeLine"), << >>)
     [] q.st = "forRof" ->
-         IF k.t # "nl" THEN
-            IF k.t \in {"eof","err"} THEN R(St(q, "nil"), <<k>>)
+         IF k.t \notin {"nl", "eof"} THEN
+            IF k.t = "err" THEN R(St(q, "nil"), <<k>>)
             ELSE R(St(Nx(q), "forRof"), << >>)
-         ELSE R(St(Nx(q), "forStream"), Body(q, 1))
+         ELSE LET q1 == IF k.t = "nl" THEN Nx(q) ELSE q IN        \* the ROF line may be the last of the input (D25)
+              IF q.fc <= 0 /\ q.ll # << >> THEN R(St(q1, "forCarry"), << >>)
+              ELSE R(St(q1, "forStream"), Body(q, 1))
+    [] q.st = "forCarry" ->                                        \* an empty labelled block hands its labels on to the next line
+         IF k.t \in {"nl", "cmt"} THEN R(St(Nx(q), "forCarry"), <<k>>)
+         ELSE IF k.t = "lbl" THEN R(St(Nx([q EXCEPT !.ll = Append(@, k.v), !.own = TRUE]), "forCarryColons"), << >>)
+         ELSE IF IsText(k) THEN
+              R(St(q, "forStream"), [j \in 1..Len(q.ll) |-> T("lbl", q.ll[j])] \o (IF k.t = "for" /\ ~q.own THEN <<T("lbl", "anon")>> ELSE << >>))
+         ELSE R(St(q, "forStream"), << >>)
+    [] q.st = "forCarryColons" ->
+         IF k.t = "colon" THEN R(St(Nx(q), "forCarryColons"), << >>)
+         ELSE IF k.t = "lbl" THEN R(St(Nx([q EXCEPT !.ll = Append(@, k.v)]), "forCarryColons"), << >>)
+         ELSE R(St(q, "forStream"), [j \in 1..Len(q.ll) |-> T("lbl", q.ll[j])])
     [] q.st = "forStream" ->
          IF k.t # "eof" THEN
             IF FIXED /\ k.t = "err" THEN R(St(q, "nil"), <<k>>)
@@ -119,7 +135,7 @@ Step(q) ==
          ELSE R(St(q, "nil"), << >>)
 
 P0 == [st |-> "forLine", ip |-> 1, tok |-> T("eof",0), eofF |-> FALSE, lb |-> << >>, eb |-> << >>,
-       cl |-> "", ll |-> << >>, tw |-> 0, fc |-> 0, cont |-> << >>, depth |-> 0]
+       cl |-> "", ll |-> << >>, tw |-> 0, fc |-> 0, cont |-> << >>, depth |-> 0, own |-> FALSE]
 
 \* no two adjacent number tokens (their texts would be concatenated by the real evaluator: "0" "2" reads as 02)
 \* (comments inside a FOR count are skipped, so numbers separated only by comments are adjacent too)
